@@ -53,6 +53,8 @@ type Node struct {
 	HandleParentGen int   // Gen of the parent at the time this container's handle was obtained
 	SeenInline      bool
 	SeenStandalone  bool
+	Seed            uint64 // maps: hash seed as first observed (never changes; composite maps may adopt a shared seed, R7)
+	SeedSeen        bool
 }
 
 func (n *Node) Count() int {
@@ -230,6 +232,9 @@ func cmpArray(a *atree.Array, n *Node, path string, o CmpOpts) error {
 	if a.Count() != uint64(len(n.Elems)) {
 		return fmt.Errorf("%s: array count %d, model has %d", path, a.Count(), len(n.Elems))
 	}
+	if o.CheckVID && a.Address() != n.Addr {
+		return fmt.Errorf("%s: array owner %x, model has %x", path, a.Address(), n.Addr)
+	}
 	i := 0
 	var ferr error
 	err := a.IterateReadOnly(func(v atree.Value) (bool, error) {
@@ -325,6 +330,20 @@ func cmpMap(m *atree.OrderedMap, n *Node, path string, o CmpOpts) error {
 	}
 	if m.Count() != uint64(len(n.Ents)) {
 		return fmt.Errorf("%s: map count %d, model has %d", path, m.Count(), len(n.Ents))
+	}
+	if o.CheckVID {
+		if m.Address() != n.Addr {
+			return fmt.Errorf("%s: map owner %x, model has %x", path, m.Address(), n.Addr)
+		}
+		// the hash seed of a map is fixed when the map is created and survives every reload (composite maps may adopt
+		// the seed they share with same-typed siblings, R7)
+		if !n.TI.Comp {
+			if !n.SeedSeen {
+				n.Seed, n.SeedSeen = m.Seed(), true
+			} else if m.Seed() != n.Seed {
+				return fmt.Errorf("%s: map seed changed from %d to %d", path, n.Seed, m.Seed())
+			}
+		}
 	}
 	seen := make(map[string]bool, len(n.Ents))
 	var ferr error
